@@ -92,7 +92,7 @@ struct OwnEngine : Engine {
         int nops = (int)cfg.range(5, tier == "thorough" ? 60 : 30);
         auto add_new = [&]() { if (cfg.chance(0.75)) { int dlt = dlts[cfg.below(7)]; gen::Frame f = gen::frame_for(wl, dlt); KV k; k.set("op", "new").set("dlt", dlt).set("f", f.bytes); p.steps.push_back(k.line()); } else { KV k; k.set("op", "newdef").set("cls", (int64_t)cfg.below(12)); p.steps.push_back(k.line()); } };
         add_new(); add_new();
-        static const char* ops[] = { "new", "clone", "copyctor", "copyassign", "copyassign", "movector", "moveassign", "div", "diveq", "inner_ptr", "inner_ref", "release", "reattach", "delete", "mutate", "mutate",
+        static const char* ops[] = { "new", "clone", "copyctor", "clone_inner", "copy_inner", "copyassign", "copyassign", "movector", "moveassign", "div", "diveq", "inner_ptr", "inner_ref", "release", "reattach", "delete", "mutate", "mutate",
                                      "pk_wrap", "pk_clonewrap", "pk_copy", "pk_assign", "pk_assign", "pk_move", "pk_moveassign", "pk_release", "pk_diveq", "optassign", "selfassign", "stack" };
         for (int i = 0; i < nops; ++i) {
             std::string o = ops[cfg.below(sizeof(ops) / sizeof(ops[0]))];
@@ -150,6 +150,10 @@ struct OwnEngine : Engine {
                 else if (op == "newdef") { PDU* q = 0; SUT(q = default_of((int)k.num("cls"))); ledger::fail_countdown = 0; add_root(q); }
                 else if (!nr && op.compare(0, 3, "pk_") != 0 && op != "optassign") skipped = true;
                 else if (op == "clone") { PDU* q = 0; SUT(q = roots[a].p->clone()); ledger::fail_countdown = 0; Root& r = add_root(q); if (roots[a].known && (r.types != roots[a].types || (roots[a].bytes_known && r.bytes_known && r.bytes != roots[a].bytes))) result = Verdict::bad("own:clone-not-equal", "clone differs from its source", idx); if (roots[a].types.size() > 1) nontrivial = true; }
+                else if (op == "clone_inner" || op == "copy_inner") {
+                    // a copy of a NON-ROOT layer kept as a user-owned root: it must be a root of its own (no parent link into the source tree) and equal to that sub-chain
+                    std::vector<int> cur_types = types_of(roots[a].p); size_t n = cur_types.size(); if (n < 2) skipped = true; else { size_t kpos = 1 + (size_t)x % (n - 1); PDU* q0 = roots[a].p; for (size_t i = 0; i < kpos; ++i) q0 = q0->inner_pdu(); PDU* q = 0; if (op == "clone_inner") SUT(q = q0->clone()); else SUT(q = typed_copy(q0)); ledger::fail_countdown = 0;
+                        if (!q) skipped = true; else { Root& r = add_root(q); st.inc("probe.copy_of_non_root_layer"); std::vector<int> want(cur_types.begin() + kpos, cur_types.end()); if (r.types != want) result = Verdict::bad("own:copy-not-equal", "copy of an inner layer does not have the layers of that sub-chain", idx); if (q->parent_pdu()) result = Verdict::bad("own:copy-keeps-foreign-parent-link", "a copy of an inner layer is user-owned but its parent link designates the layer that owns the original", idx); nontrivial = true; } } }
                 else if (op == "copyctor") { PDU* q = 0; SUT(q = typed_copy(roots[a].p)); ledger::fail_countdown = 0; if (!q) skipped = true; else { Root& r = add_root(q); if (roots[a].known && (r.types != roots[a].types || (roots[a].bytes_known && r.bytes_known && r.bytes != roots[a].bytes))) result = Verdict::bad("own:copy-not-equal", "copy-constructed object differs from its source", idx); if (roots[a].types.size() > 1) nontrivial = true; } }
                 else if (op == "copyassign" || op == "selfassign") {
                     if (op == "selfassign") b = a;
